@@ -440,11 +440,12 @@ def cfg_small_shapes():
     L = lambda i: {"k": "leaf", "id": i, "b": [0, 1]}
     comp1 = {"k": "All", "id": "B", "c": [L("a"), L("b")]}
     comp2 = {"k": "Any", "id": None, "c": [L("c"), L("d")]}
-    member_sets = [[L("p"), L("q")], [L("p"), L("q"), L("r")], [comp1, L("c")], [L("c"), comp1], [comp1, comp2], [comp1, comp2, L("e")], [comp2, L("e")]]
+    member_sets = [[L("p"), L("q")], [L("p"), L("q"), L("r")], [L("a"), L("b"), L("c"), L("d")], [L("k1"), L("k2"), L("k3")], [comp1, L("c")], [L("c"), comp1], [comp1, comp2], [comp1, comp2, L("e")], [comp2, L("e")]]
     for kind in ("cAny", "cXor"):
         for ms in member_sets:
             leaf_ids = [m["id"] for m in ms if m["k"] == "leaf"]
-            defaults = [None] + [[i] for i in leaf_ids[:2]] + ([[leaf_ids[-1], leaf_ids[0]]] if len(leaf_ids) >= 2 else []) + [["zz"]]
+            defaults = [None] + [[i] for i in leaf_ids[:2]] + ([[leaf_ids[-1]]] if len(leaf_ids) >= 3 else []) + \
+                ([[leaf_ids[-1], leaf_ids[0]]] if len(leaf_ids) >= 2 else []) + [["zz"]]
             for dflt in defaults:
                 for gid in ("X", None):
                     g = {"k": kind, "id": gid, "c": ms, "default": dflt}
